@@ -19,11 +19,28 @@
      DErr         the request fails (sendCmd's err != nil branch)
    The 3 s start-up timer is replaced by explicit operations OQueryAll (checkRetireSupport)
    and OQuery n (queryRetire for one service: one ack arriving on its own).
-   What INodeApp.GetService answers may change over time (in the real app it is fed by the
-   cluster topology, replaced wholesale on every provider update): OHide n / OShow n make a
-   hosted service unresolvable / resolvable again at any point of the history; the service
-   itself keeps running (it can still report "retired").  [hid] is the set of names
-   currently hidden; sendCmd skips an unresolvable service and does nothing else. *)
+   INodeApp is node/app.App (app.go) over its service directory (cluster.go,
+   clusterservices.go):
+     App.FilterSelfServices                  names cfg (configuration order)
+     ClusterServices.services                dir: alist nstate - the node's own services the
+       map[string]*ServiceItem                 directory lists, each with ServiceItem.State, a
+                                               COPY of the node state taken when the topology
+                                               was last rebuilt (MakeMembers / addService)
+     App.GetService(n) != nil                the directory lists n - WHATEVER state the entry
+                                               carries ([resolvable]; GetWorkServicePID, for
+                                               routing, is the one that looks at the state)
+     App.UpdateNodeState -> provider         EPub: the provider records the node's own state
+       .UpdateClusterState                     (etcd provider: self.State = state) and does NOT
+                                               rebuild the topology
+   The directory is replaced wholesale whenever the cluster provider publishes a topology:
+     OTopo k     cluster membership changed (k other members now): the topology is rebuilt, the
+                 own member included - its services are re-published with the node's CURRENT
+                 state (publishClusterTopologyEvent -> Cluster.UpdateClusterTopology)
+     OHide n /   the provider publishes a topology whose own member lacks / again has service
+     OShow n     n: GetService(n) answers nil until it is shown again; the service itself keeps
+                 running (it can still report "retired").  [hid] is the set of names currently
+                 left out; sendCmd skips an unresolvable service and does nothing else.
+   All three are topology publications and show the directory they leave behind (RDir). *)
 From Cell2V Require Import Common.Tac Common.ListX Common.AList.
 
 Inductive nstate := Working | Retiring | Retired | Exiting | Exited.
@@ -63,14 +80,17 @@ Inductive op :=
 | OSvcCmd (n : Z) (k : scmd)  (* ctrl.servicecmd {Name n, Cmd retired|other}, reply observed *)
 | ONotify (n : Z)             (* app.NotifyServiceRetired from the service named n *)
 | OStopDone (succ : bool)     (* the oldest outstanding StopNode callback is called with succ *)
-| OHide (n : Z)               (* from now on GetService(n) answers nil *)
-| OShow (n : Z).              (* GetService(n) answers the service's PID again (if it has one) *)
+| OHide (n : Z)               (* topology published without own service n: GetService(n) answers nil *)
+| OShow (n : Z)               (* topology published with n again: GetService(n) answers its PID *)
+| OTopo (k : Z).              (* membership changed (k other members): topology rebuilt, own services
+                                 re-published with the node's current state *)
 
 Inductive reply :=
 | RNone                                          (* the operation has no reply *)
 | ROk                                            (* "ok" *)
 | RStat (s : nstate)                             (* "state: <s>, running passed: .." *)
 | RNodes (s : nstate) (l : list (Z * (nstate * bool)))  (* web_nodes: status + services map *)
+| RDir (l : list (Z * nstate))                   (* the directory's entries for the own services *)
 | RBadState (s : nstate)                         (* "beginRetire/beginExit failed, error state: <s>" *)
 | RNoSupport                                     (* "some service not support retire" *)
 | RUnknown.                                      (* "<cmd> not support" *)
@@ -86,18 +106,28 @@ Record state := mk {
   svcs : alist (nstate * bool);   (* per service: State, RetireSupport *)
   sup : bool;                     (* retireSupport *)
   pend : nat;                     (* StopNode callbacks outstanding *)
-  hid : list Z                    (* environment: names GetService currently does not resolve *)
+  hid : list Z;                   (* environment: own services the published topology leaves out *)
+  dir : alist nstate              (* the service directory: own services listed, with state copies *)
 }.
 
-(* GetService(n) != nil right now *)
+Definition is_some {A} (x : option A) : bool := match x with Some _ => true | None => false end.
+
+(* GetService(n) != nil right now (and a process runs under that name): the directory has an
+   entry for n.  The state copy the entry carries plays no part. *)
 Definition resolvable (cfg : config) (s : state) (n : Z) : bool :=
-  present cfg n && negb (zmem n (hid s)).
+  present cfg n && is_some (aget n (dir s)).
+
+(* MakeMembers on a topology whose own member has state st and lists every configured service
+   except those in hd: one entry per name, stamped st *)
+Definition publish (cfg : config) (st : nstate) (hd : list Z) : alist nstate :=
+  fold_left (fun m n => if zmem n hd then m else aset n st m) (names cfg) [].
 
 (* makeServices *)
 Definition init_svcs (cfg : config) : alist (nstate * bool) :=
   fold_left (fun m n => aset n (Working, false) m) (names cfg) [].
 
-Definition init (cfg : config) : state := mk Working (init_svcs cfg) false 0 [].
+(* the provider's StartMember publishes the first topology before NodeCtrl starts *)
+Definition init (cfg : config) : state := mk Working (init_svcs cfg) false 0 [] (publish cfg Working []).
 
 (* checkAllRetireSupport / isAllServiceRetired *)
 Definition all_support (m : alist (nstate * bool)) : bool := forallb (fun kv => snd (snd kv)) m.
@@ -112,7 +142,7 @@ Definition query_one (cfg : config) (s : state) (n : Z) : state * list (Z * kcmd
       if resolvable cfg s n then
         if answers_ok cfg n then
           let m := aset n (st, true) (svcs s) in
-          (mk (nst s) m (all_support m) (pend s) (hid s), [(n, KQuery)])
+          (mk (nst s) m (all_support m) (pend s) (hid s) (dir s), [(n, KQuery)])
         else (s, [(n, KQuery)])
       else (s, [])
   end.
@@ -137,24 +167,30 @@ Definition service_retired (s : state) (n : Z) : state * list aev :=
   | Some (_, sp) =>
       let m := aset n (Retired, sp) (svcs s) in
       if all_retired m && (rank (nst s) <? rank Retired)
-      then (mk Retired m (sup s) (pend s) (hid s), [EPub Retired])
-      else (mk (nst s) m (sup s) (pend s) (hid s), [])
+      then (mk Retired m (sup s) (pend s) (hid s) (dir s), [EPub Retired])
+      else (mk (nst s) m (sup s) (pend s) (hid s) (dir s), [])
   end.
 
 Definition do_retire (cfg : config) (s : state) : state * obs :=
   match nst s with
   | Working | Retiring =>
       if sup s
-      then (mk Retiring (svcs s) (sup s) (pend s) (hid s), Ob ROk [EPub Retiring] (retire_sends cfg s))
+      then (mk Retiring (svcs s) (sup s) (pend s) (hid s) (dir s), Ob ROk [EPub Retiring] (retire_sends cfg s))
       else (s, Ob RNoSupport [] [])
   | x => (s, Ob (RBadState x) [] [])
   end.
 
 Definition do_exit (s : state) : state * obs :=
   match nst s with
-  | Retired => (mk Exiting (svcs s) (sup s) (S (pend s)) (hid s), Ob ROk [EPub Exiting; EStop] [])
+  | Retired => (mk Exiting (svcs s) (sup s) (S (pend s)) (hid s) (dir s), Ob ROk [EPub Exiting; EStop] [])
   | x => (s, Ob (RBadState x) [] [])
   end.
+
+(* the provider publishes a topology (own member: state nst s as last given to
+   UpdateClusterState, services all but hd); nothing else of the node changes *)
+Definition republish (cfg : config) (s : state) (hd : list Z) : state * obs :=
+  let d := publish cfg (nst s) hd in
+  (mk (nst s) (svcs s) (sup s) (pend s) hd d, Ob (RDir d) [] []).
 
 Definition step (cfg : config) (s : state) (o : op) : state * obs :=
   match o with
@@ -176,13 +212,12 @@ Definition step (cfg : config) (s : state) (o : op) : state * obs :=
       match pend s with
       | O => (s, Ob RNone [] [])
       | S p =>
-          if succ then (mk Exited (svcs s) (sup s) p (hid s), Ob RNone [EPub Exited] [])
-          else (mk (nst s) (svcs s) (sup s) p (hid s), Ob RNone [] [])
+          if succ then (mk Exited (svcs s) (sup s) p (hid s) (dir s), Ob RNone [EPub Exited] [])
+          else (mk (nst s) (svcs s) (sup s) p (hid s) (dir s), Ob RNone [] [])
       end
-  | OHide n =>
-      (mk (nst s) (svcs s) (sup s) (pend s) (if zmem n (hid s) then hid s else n :: hid s), Ob RNone [] [])
-  | OShow n =>
-      (mk (nst s) (svcs s) (sup s) (pend s) (filter (fun k => negb (Z.eqb k n)) (hid s)), Ob RNone [] [])
+  | OHide n => republish cfg s (if zmem n (hid s) then hid s else n :: hid s)
+  | OShow n => republish cfg s (filter (fun k => negb (Z.eqb k n)) (hid s))
+  | OTopo _ => republish cfg s (hid s)
   end.
 
 Fixpoint run_from (cfg : config) (s : state) (ops : list op) : state * list obs :=
